@@ -251,7 +251,7 @@ def discharge(vc: VC, timeout_ms: int = 10000) -> Discharged:
     from pyvc.engine import int_str, parse_int, str_count_nl
 
     s = z3.Solver()
-    s.set("timeout", 2000 if vc.cover else (4000 if vc.canary else timeout_ms))
+    s.set("timeout", 600 if vc.cover else (2500 if vc.canary else timeout_ms))
     body = list(vc.pc) + [vc.goal]
     if uses_any(body, [int_str, parse_int, str_count_nl]):
         s.add(*background_axioms())
@@ -278,7 +278,7 @@ def discharge(vc: VC, timeout_ms: int = 10000) -> Discharged:
         return Discharged(vc, "undecided", "z3", ms, None, s.reason_unknown())
     # retry with a different configuration before giving up
     s2 = z3.SolverFor("AUFLIA") if False else z3.Solver()
-    s2.set("timeout", timeout_ms * 2)
+    s2.set("timeout", timeout_ms * 4)
     s2.set("smt.mbqi", False) if False else None
     s2.add(*s.assertions())
     t0 = time.time()
